@@ -343,7 +343,7 @@ def evaluate(spec):
                 got_blocks = [x.target for x in ret]
                 # a return site that was the start of a block deleted with
                 # retarget_to_proxy: the return edge goes to the proxy (Deletion.md)
-                proxied = {w for w in want_sites if w in proxy_starts}
+                proxied = {w for w in (want_sites | optional) if w in proxy_starts}
                 if proxied:
                     want_sites = want_sites - proxied
                     optional |= proxied
